@@ -2423,7 +2423,8 @@ func (c *Compiler) BuildBaseType(
 	typ2 := refType.ChildByType(parse.NodeTyp)
 	tdef := refType.Def()
 	thasdef := refType.HasDef()
-	return c.BuildType(cfgNode, typ2, tdef, thasdef, schema.Current), tname, false
+	return c.BuildType(cfgNode, typ2, tdef, thasdef,
+		c.getStatus(refType, schema.Current)), tname, false
 }
 
 func (c *Compiler) CheckMinMax(n parse.Node, min, max uint) {
